@@ -185,6 +185,11 @@ def main():
     m = find(F, r"ToLowerBase16\(nostd::span<char, 2> buffer\).*?kHex\[\]\s*=\s*(\"[^;]*\")\s*;", "TraceFlags kHex")
     tbl = join_literals(m.group(1))
     emit("Definition kFlagsHexTable : list N := [%s]." % "; ".join(str(b) for b in tbl))
+    # TraceId / SpanId digit tables (C09: the injected ids go through these)
+    for nm, rel, width in (("kTraceIdHexTable", "api/include/opentelemetry/trace/trace_id.h", r"2 \* kSize"),
+                           ("kSpanIdHexTable", "api/include/opentelemetry/trace/span_id.h", r"2 \* kSize")):
+        m = find(rel, r"ToLowerBase16\(nostd::span<char, %s> buffer\).*?kHex\[\]\s*=\s*(\"[^;]*\")\s*;" % width, nm)
+        emit("Definition %s : list N := [%s]." % (nm, "; ".join(str(b) for b in join_literals(m.group(1)))))
     nat_const("kIsSampled", F, r"kIsSampled\s*=\s*(\d+)\s*;")
 
     # --- TraceState (C14)
